@@ -42,6 +42,9 @@ type K struct {
 	// KnownHits counts violations that matched a known finding marked
 	// "continue": true in known_findings.json (the run goes on past them).
 	KnownHits map[string]int
+	// NoMinimise: the violation left runaway work behind (a hang); the worker
+	// reports it without re-executing the run and stops.
+	NoMinimise bool
 }
 
 func newK(prop, tier string, tape *Tape, ix uint64) *K {
